@@ -41,6 +41,8 @@ def e1_cases(tier, seed):
     out = common.add_algs(con + con3,
                           lambda c: common.shipped(c, lvl, "diag"))
     out += common.add_algs(bat, lambda c: common.batch_algs(c, lvl))
+    out += common.add_algs(common.wide_scope(lvl),
+                           lambda c: common.wide_algs(c, lvl))
     return common.rotate(out, seed)
 
 
@@ -51,7 +53,7 @@ def run(rep, tier, seed):
         "count as free), the reading C12 spells out",
         "not demanded: which calls must be refused (only that a refusal is "
         "clean), nor the reservation counter mid-run"]
-    plan = [(2, 6), (3, 4)] if tier != "thorough" else [(2, 9), (3, 6)]
+    plan = [(2, 6), (3, 3)] if tier != "thorough" else [(2, 8), (3, 5)]
     nontriv = 0
     for M, depth in plan:
         stats, viols = e2.bfs_parallel(M, depth)
